@@ -48,6 +48,7 @@ mod k {
         assert!(r.shard_mask == n - 1);
         kani::cover!(n == 8);
         kani::cover!(n == 1);
+        core::mem::forget(r); // dropping empty hashbrown tables is intractable for CBMC (measured); Drop is not part of the claim
     }
 
     // for every hash: the selected shard is element (hash & mask) of the vector of THAT kind (in bounds: CBMC pointer checks on
@@ -68,5 +69,6 @@ mod k {
         let (hh, sh) = r.get_hash_and_shard_for_histogram(&key);
         assert!(hh == h && core::ptr::eq(sh, &r.histograms[idx]));
         kani::cover!(idx == 7);
+        core::mem::forget(r); // dropping empty hashbrown tables is intractable for CBMC (measured); Drop is not part of the claim
     }
 }
